@@ -452,7 +452,10 @@ class IntegerFieldFormat(AbstractFieldFormat):
                         % self.length
                     )
                 length = ranges.Range("1...%d" % self.length.upper_limit)
-            length_range = ranges.create_range_from_length(length)
+            try:
+                length_range = ranges.create_range_from_length(length)
+            except errors.RangeValueError as error:
+                raise errors.InterfaceError(str(error))
 
         has_rule = (rule is not None) and (rule.strip() != "")
         if has_rule:
